@@ -208,10 +208,13 @@ func (evpool *Pool) CheckEvidence(evList types.EvidenceList) error {
 				return err
 			}
 
-			if err := evpool.addPendingEvidence(ev); err != nil {
-				// Something went wrong with adding the evidence but we already know it is valid
-				// hence we log an error and continue
-				evpool.logger.Error("Can't add evidence to pending list", "err", err, "ev", ev)
+			// light client attack evidence is verified every time but must only be added (and counted) once
+			if !evpool.isPending(ev) {
+				if err := evpool.addPendingEvidence(ev); err != nil {
+					// Something went wrong with adding the evidence but we already know it is valid
+					// hence we log an error and continue
+					evpool.logger.Error("Can't add evidence to pending list", "err", err, "ev", ev)
+				}
 			}
 
 			evpool.logger.Info("Check evidence: verified evidence of byzantine behavior", "evidence", ev)
